@@ -444,6 +444,7 @@ package rosmar
 //@   ensures [C13:Close.unregisters]  !old(bucket.closed) ==> count("call:unregisterBucket") == 1 && callarg("unregisterBucket", 0) == bucket
 //@   ensures [C13:Close.flag]         bucket.closed
 //@   ensures [C20:Close.unlocked]     any: nolocks()
+//@   ensures [C20:Close.unregisters-without-bucket-lock] any: callunlocked("unregisterBucket")
 //@
 //@ fn (*bucketRegistry).deleteBucket
 //@   ensures [C13:deleteBucket.removed] !haskey(r.buckets, bucket.name) && !haskey(r.bucketCount, bucket.name)
@@ -477,6 +478,8 @@ package rosmar
 //@   modular
 //@ fn (*Bucket)._scheduleExpiration
 //@   modular
+//@   ensures [C10,C14:_scheduleExpiration.asks-database] count("call:Bucket.nextExpiration") == 1 && callarg("Bucket.nextExpiration", 0) == bucket
+//@   ensures [C10,C14:_scheduleExpiration.covers-minimum] callret("Bucket.nextExpiration", 1) == nil && callret("Bucket.nextExpiration", 0) != 0 ==> *bucket.expManager.nextExp != 0 && *bucket.expManager.nextExp <= callret("Bucket.nextExpiration", 0)
 //@
 //@ fn OpenBucket
 //@   ensures [C13:OpenBucket.registry-first]  count("call:encodeDBURL") == 1 && (err == nil || count("call:getCachedBucket") == 1 || count("call:getCachedBucket") == 0 && callpos("encodeDBURL") >= 0 && count("call:registerBucket") == 0)
